@@ -398,6 +398,10 @@ class C14(Suite):
                                                "/.well-known/genid/"]),
                        "new_graph": rng.random() < 0.3,
                        "bnode": rng.choice(bl) if bl and rng.random() < 0.25 else None}
+        if case.get("fam") == "leak":
+            # blank predicates (generalised RDF): Graph.skolemize leaves predicates alone, so through the external
+            # branch a node that is predicate and subject/object comes back as two different nodes - out of scope
+            case["skv"]["basepath"] = None
         return case
 
     def _gen0(self, rng, i):
